@@ -553,6 +553,8 @@ _MSWEEP_DOCS = [
                 '<li>4</li><li>5</li></ul></body></html>'),
      'parser': 'html.parser', 'mut': []},
 ]
+_MSWEEP_DOCS.append({'markup': '<div class="a b"><p>one</p><p lang="en">two</p><form><input type="radio" name="q"></form>'
+                               '<span>t</span></div>', 'parser': 'html.parser', 'mut': [], 'detach': 0})
 MSWEEP_FAMILIES = [
     ('lang', [':lang(de)', ':lang(en)', 'p:lang("*-DE", en)', ':not(:lang(de))', ':lang(fr, de, en)']),
     ('nth', ['li:nth-child(odd)', 'li:nth-child(2n+1)', 'p:nth-of-type(2)', ':nth-child(2 of .a)', ':nth-last-child(-n+2)']),
@@ -563,11 +565,15 @@ MSWEEP_FAMILIES = [
     ('rel', [':has(> p)', 'div > p', 'p ~ a', ':not(div p)', ':is(p, a):first-child', 'li:has(+ li.a)']),
     ('root', [':root', ':root > body', 'html:first-child', ':root :link']),
 ]
+MSWEEP_DETACHED_PATTERNS = [':first-child *', ':nth-child(1) > p', ':only-child, :nth-last-child(1) *', ':root', '* > p', ':root > *',
+                            'p:not(* > p)', ':first-child']
 MSWEEP_ERROR_PATTERNS = ['div >\n  p:nth-child(foo)\n  , a', 'ul li\n a[href\n=x', 'p,\n\n,a', ':is(p, :not(\n  span!))\n', 'div > p.a:lang(en)']
 MSWEEP_BATCH = 40
 
 
-def msweep_pairs():
+def msweep_pairs(core=False):
+    """core=True: the quick tier's subset (every pattern as victim against itself on another document + the error
+    family); the other pair shapes belong to the thorough tier."""
     keys = []
     pairs = []
     for fam, pats in MSWEEP_FAMILIES:
@@ -581,12 +587,21 @@ def msweep_pairs():
         for j in range(len(pats)):
             kj, ks = base + j, base + (j + 1) % len(pats)
             pairs.append((fam, q('select', kj, j % 2), q('select', kj, 1 - j % 2), q('select', ks, 1 - j % 2) if j % 3 != 2 else None))
+        if core:
+            continue
         # a sibling pattern asked about one element while the victim walks the document
         pairs.append((fam, q('select', k0, 0), q('match', k1, 0, 9), None))
         # the victim asks about one element (and compiles inside the call), the peer selects with the same pattern
         pairs.append((fam, q('match', k0, 1, 12, 'module'), q('select', k0, 0, -1, 'compiled'), None))
         if len(pats) > 2:
             pairs.append((fam, q('select', base + 2, 1), q('closest', base + 2, 0, 14), q('filter', k0, 0)))
+    # a parentless fragment shared by both threads: structural questions about its root (for which the matcher has to
+    # invent a parent) against questions about the root, its parent and its ancestors - on the SAME tree
+    base = len(keys)
+    keys.extend({'pattern': p_, 'ns': None, 'custom': None, 'flags': 0} for p_ in MSWEEP_DETACHED_PATTERNS)
+    n = len(MSWEEP_DETACHED_PATTERNS)
+    for j in range(n):
+        pairs.append(('detached', q('select', base + j, 2), q('select' if j % 2 else 'match', base + (j + 3) % n, 2), None))
     # the error / diagnostic path of compilation: two threads being told what is wrong with their (different or same)
     # malformed patterns at the same time; each must get the message, context, line and column of its own pattern
     base = len(keys)
@@ -597,9 +612,9 @@ def msweep_pairs():
     return keys, pairs
 
 
-def run_msweep(sv, index, bound):
+def run_msweep(sv, index, bound, core=False):
     from sim import runner
-    keys, pairs = msweep_pairs()
+    keys, pairs = msweep_pairs(core)
     pi, batch = index % len(pairs), index // len(pairs)
     fam, victim, peer, prime = pairs[pi]
     workload = {'mode': 'msweep', 'keys': keys, 'docs': _MSWEEP_DOCS, 'programs': [[victim], ([prime] if prime else []) + [peer]],
@@ -759,7 +774,7 @@ def run_seeded(sv, run_seed, mode, bound, index=None, active=None):
         res['run_seed'] = run_seed
         return res
     if mode == 'msweep':
-        res = run_msweep(sv, index or 0, bound)
+        res = run_msweep(sv, index or 0, bound, core=bool(active))
         res['run_seed'] = run_seed
         return res
     if mode == 'sweep':
@@ -796,7 +811,8 @@ def plan(tier):
     if tier == 'thorough':
         scale, budget = 28, 1500
     else:
-        scale, budget = 1, 85
+        # the three systematic sweeps take ~55 s of the quick budget on 16 cores; the rest is seeded sampling
+        scale, budget = 1, 150
     cfgs = []
 
     def add(mode, bound, nruns, chunk):
@@ -818,8 +834,8 @@ def plan(tier):
                  'nruns': 25 * 14 if tier != 'thorough' else 75 * 190, 'pairs': 25 if tier != 'thorough' else 75})
     # matcher-side site sweep: every pair's victim query is parked once (thorough: up to three times) at every distinct
     # (function, line) site it reaches while the peer runs a whole query of the same family
-    npairs = len(msweep_pairs()[1])
-    cfgs.append({'name': 'msweep-k500', 'mode': 'msweep', 'bound': 500, 'chunk': 8,
+    npairs = len(msweep_pairs(tier != 'thorough')[1])
+    cfgs.append({'name': 'msweep-k500', 'mode': 'msweep', 'bound': 500, 'chunk': 8, 'pairs': 1 if tier != 'thorough' else 0,
                  'nruns': npairs * (9 if tier != 'thorough' else 17)})
     # the systematic sweeps are dispatched first in every round: a deadline cut then only shortens the random sampling
     # depth-2 site sweep (8 pairs x 3 parking points of the peer x the sites of the swept thread)
